@@ -24,16 +24,37 @@ func lenArgOf(v ssa.Value) ssa.Value {
 }
 
 // derivesFromField: the backward slice of v contains a load/address of field f.
+// Elements stored into a local array (composite literal) count as well.
 func derivesFromField(v ssa.Value, f *types.Var) bool {
-	for x := range backward(v, nil) {
-		switch y := x.(type) {
-		case *ssa.FieldAddr:
-			if structField(y.X.Type(), y.Field) == f {
-				return true
+	seen := map[ssa.Value]bool{}
+	work := []ssa.Value{v}
+	for len(work) > 0 {
+		x := work[len(work)-1]
+		work = work[:len(work)-1]
+		for y := range backward(x, nil) {
+			if seen[y] {
+				continue
 			}
-		case *ssa.Field:
-			if structField(y.X.Type(), y.Field) == f {
-				return true
+			seen[y] = true
+			switch z := y.(type) {
+			case *ssa.FieldAddr:
+				if structField(z.X.Type(), z.Field) == f {
+					return true
+				}
+			case *ssa.Field:
+				if structField(z.X.Type(), z.Field) == f {
+					return true
+				}
+			case *ssa.Alloc:
+				for _, ref := range *z.Referrers() {
+					if ia, ok := ref.(*ssa.IndexAddr); ok && ia.X == ssa.Value(z) {
+						for _, r2 := range *ia.Referrers() {
+							if st, ok := r2.(*ssa.Store); ok && st.Addr == ssa.Value(ia) {
+								work = append(work, st.Val)
+							}
+						}
+					}
+				}
 			}
 		}
 	}
